@@ -302,6 +302,10 @@ class Fn:
                     return [], a if ka[0] == "set" else "(py_set %s)" % a, SET(ka[1]), True
                 if f.id == "sorted":
                     kw = {k.arg: k.value for k in e.keywords}
+                    if set(kw) == {"key"} and ast.unparse(kw["key"]) == "lambda n: n.name" and ka[0] == "set" and ka[1] == NODE:
+                        # a set of nodes sorted by name: names are not modelled, so this is one more set -> sequence conversion site
+                        # (some permutation of the set, as list(s) is); sound because every theorem holds for every permutation
+                        return [], self.as_seq(a, ka, e), L(ka[1]), True
                     if set(kw) != {"key"} or ast.unparse(kw["key"]) != PINNED_KEY or ka[1] != EDGE:
                         raise Reject("%s: sorted() is understood only on edges with key=%s" % (where(e), PINNED_KEY))
                     return [], "(sorted_by_name %s)" % self.as_seq(a, ka, e), L(EDGE), True
